@@ -225,6 +225,9 @@ func c20Run(c c20Case) Verdict {
 		}
 	}
 	fired := closeDone != nil || shutDone != nil
+	if fired && !r.L.IsClosed() {
+		return failf("still-accepting", "Close / Shutdown has returned but the listener was never closed: the server still accepts connections")
+	}
 	if !r.Shutdown() {
 		return Verdict{Inconclusive: "watchdog in final join"}
 	}
@@ -601,7 +604,7 @@ func TestC20(t *testing.T) {
 		return
 	}
 	// schedules: drawn with rapid's generators (deterministic per seed), one subtest each
-	n := pickTier(800, 4000)
+	n := pickTier(800, 8000)
 	gen := rapid.Custom(c20Gen)
 	for i := 0; i < n; i++ {
 		c := gen.Example(seedBase*1000003 + shard*100003 + i)
